@@ -377,14 +377,33 @@ void do_log(int producer, int opidx, const Op &op, bool fatal)
             pad[i] = char('A' + (i / 64) % 26);
         text += pad;
     }
-    char *file = heap_dup(kFiles[(op.c & 0xff) % kNumFiles]);
+    // every other call of a thread in a "poison" plan passes file and category in buffers the thread reuses
+    // for all its calls (same address, other content - also content that merely extends the previous one);
+    // the other calls use fresh heap strings that are overwritten and freed right after the call
+    static thread_local char *tl_file = nullptr, *tl_cat = nullptr;
+    const bool reuse = C->plan->poison && (opidx & 1);
+    char *file = nullptr;
+    if (reuse && kFiles[(op.c & 0xff) % kNumFiles]) {
+        if (!tl_file)
+            tl_file = (char *)malloc(96);
+        snprintf(tl_file, 96, "%s", kFiles[(op.c & 0xff) % kNumFiles]);
+        file = tl_file;
+    } else
+        file = heap_dup(kFiles[(op.c & 0xff) % kNumFiles]);
     char *func = heap_dup(kFunctions[((op.c >> 8) & 0xff) % kNumFunctions]);
     if (P.target == "dual") {
         // a signature of its own for every call: whatever the library remembers per signature keeps growing
         free(func);
         func = heap_dup(QStringLiteral("void Cls%1::fn%1(int)").arg(cid).toLatin1().constData());
     }
-    char *cat = heap_dup(kCategories[op.b % kNumCategories]);
+    char *cat = nullptr;
+    if (reuse) {
+        if (!tl_cat)
+            tl_cat = (char *)malloc(96);
+        snprintf(tl_cat, 96, "%s", kCategories[op.b % kNumCategories]);
+        cat = tl_cat;
+    } else
+        cat = heap_dup(kCategories[op.b % kNumCategories]);
     int flags = op.c >> 16;
     QtMsgType type = fatal ? QtFatalMsg : (QtMsgType)op.a;
     bool poison = P.poison;
@@ -423,9 +442,15 @@ void do_log(int producer, int opidx, const Op &op, bool fatal)
     }
     std::string rs = reads_string();
     sim::ev(E_RETURN, cid, sim::wall_now(), 0, rs);
-    poison_free(file, poison);
+    if (file == tl_file && file)
+        memset(file, 'Y', strlen(file)); // reused buffer: overwritten, not freed
+    else
+        poison_free(file, poison);
     poison_free(func, poison);
-    poison_free(cat, poison);
+    if (cat == tl_cat && cat)
+        memset(cat, 'Y', strlen(cat));
+    else
+        poison_free(cat, poison);
 }
 
 void run_ops(int producer, const std::vector<Op> &ops);
